@@ -149,6 +149,7 @@ CLAIMED = {
                  'cautious(len) * size_of <= max(4096, size_of) (C07_hint); the byte-loop buffer never exceeds max(min(len, 1 MiB), 2 * consumed) (C07_bulk, C07_bulk_requests); for every type of the family (collection elements take >= 1 byte on the wire or are refused as ZST) '
                  'the largest single request, the number of element decodes and the total requested bytes are bounded by explicit constants + constants * |input| (C07_prefix_alone, C07_work, C07_alloc, C07_consumed), and by TIGHT constants in which the failure constant is additive through nesting because only one element decode can fail '
                  '(C07_alloc_tight, C07_work_tight: total requested <= F0 + S1 * |input| with e.g. F0 = 1 MiB + 4 KiB, S1 = 101 for Vec<Vec<u8>>; C07_alloc_success: an accepted input costs at most S1 * bytes consumed, never the 1 MiB; C07_tight_le_loose). '
+                 'The conversions into the final collection (collect into B-tree / hash / index collections and lists, Box::new, Rc::from, Bytes::from) are bounded too: units and bytes converted are linear in the elements decoded and in the input length (C07_conv_units_elems, C07_conv_bytes_elems, C07_conv_units, C07_conv_bytes, C07_conv_success); how many bytes the foreign constructor requests per converted byte is std\'s / hashbrown\'s and is measured, not proved. '
                  'PARTIAL by nature: the real allocator, Vec growth policy, stack depth and aborts are runtime behaviour. ' + CORR + ' Counting global allocator, hostile length prefixes (0xFFFFFFFF, 2^31, 2^20+1, 2^20) at every length position, corruptions, random strings up to 64 KiB, in child processes under a memory cap; '
                  'oracle: no panic/abort/dead child, max request and peak within stated linear bounds, elements decoded <= |input| + 1.'),
         'design_ref': 'DESIGN.md section 5 C07; NOTES-cost.md',
@@ -179,6 +180,7 @@ CLAIMED = {
         'text': ('Kernel-checked on a statement-by-statement transcription of max_serialized_size_impl/is_zero_size_impl (explicit stack, count multiplier, checked arithmetic, every early return): '
                  'never panics/out of fuel; sound (no described value is longer) and attained (when inhabited) for every container; refines the unbounded-arithmetic maximum '
                  '(Ok n below 2^64, Overflow otherwise) for containers whose range ends are u64; Recursive only at a reachable cycle, MissingDefinition only for a reached undefined name. '
+                 'The yardstick `sizes` is tied to real byte strings: the container-driven decoder only consumes byte counts that are sizes (C09_sdec_sizes, no hypotheses), the encoding of every value of a Rust type with a schema is a size of its container (C09_encodings_are_sizes) and is therefore at most the reported maximum (C09_bounds_encodings; hypotheses of C08_decodes: wf, typed defaults, name-coherent). '
                  + CORR + ' ~127k (quick) / ~980k (thorough) containers: bounded-exhaustive small graphs + random + for_type containers of Rust types, and an independent Python oracle.'),
         'design_ref': 'DESIGN.md section 5 C09; NOTES-schema.md',
         'technique': 'Coq proof (fuel induction with stack invariant, simulation against an unbounded-N specification) + bounded-exhaustive container correspondence',
